@@ -14,7 +14,11 @@ from nix_manipulator.expressions.expression import NixExpression, TypedExpressio
 from nix_manipulator.expressions.inherit import Inherit
 from nix_manipulator.expressions.layout import empty_line, linebreak, point_row
 from nix_manipulator.expressions.scope import ScopeLayer, ScopeState
-from nix_manipulator.expressions.set import _collect_attrpath_order, _render_bindings
+from nix_manipulator.expressions.set import (
+    _collect_attrpath_order,
+    _merge_attrpath_bindings,
+    _render_bindings,
+)
 from nix_manipulator.expressions.trivia import (
     append_gap_between_offsets,
     collect_comment_trivia_between,
@@ -170,6 +174,8 @@ class LetExpression(TypedExpression):
                     ):
                         local_variables[-1].after.append(empty_line)
             attrpath_order = _collect_attrpath_order(local_variables)
+            # Dotted bindings that share a root are one attribute, as in a set.
+            local_variables = _merge_attrpath_bindings(local_variables)
 
         if not pre_value_comments:
             if gap_has_empty_line_from_offsets(
